@@ -15,7 +15,12 @@ func (k Keeper) VestingPools(goCtx context.Context, req *types.QueryVestingPools
 	}
 
 	ctx := sdk.UnwrapSDKContext(goCtx)
-	accountVestingPools, found := k.GetAccountVestingPools(ctx, req.Owner)
+	owner := req.Owner
+	if ownerAddress, err := sdk.AccAddressFromBech32(owner); err == nil {
+		// pools are stored under the canonical bech32 string of the owner's address
+		owner = ownerAddress.String()
+	}
+	accountVestingPools, found := k.GetAccountVestingPools(ctx, owner)
 	if !found {
 		return nil, status.Error(codes.NotFound, "vesting pools not found")
 	}
